@@ -36,15 +36,63 @@ func traceLines(s *Scenario) []map[string]any {
 		pos = 1 // not part of a history: judged as the first request of a fresh handler
 	}
 	lines := []map[string]any{{"e": "Reset", "kind": s.Kind, "n": s.N, "ka": b2s(s.ka()), "disc": b2s(s.CutAt >= 0), "fail": s.FailAt, "pos": pos}}
+	dl := -1
+	if s.CancelMode != "" && s.CancelSeen >= 0 {
+		dl = deadlinePos(s)
+	}
 	for i, t := range s.Toks {
 		ids := t.IDs
 		if ids == nil {
 			ids = []int{}
 		}
+		if i == dl {
+			lines = append(lines, map[string]any{"e": "Deadline", "k": "-", "at": s.CancelSeen})
+		}
 		lines = append(lines, map[string]any{"e": "Tok", "k": t.K, "id": t.ID, "ids": ids, "hn": t.HN, "rem": len(s.Toks) - i})
+	}
+	if dl >= len(s.Toks) {
+		lines = append(lines, map[string]any{"e": "Deadline", "k": "-", "at": s.CancelSeen})
 	}
 	lines = append(lines, map[string]any{"e": "End", "eof": s.EOF, "produced": produced})
 	return lines
+}
+
+// deadlinePos says before which token of the stream the Deadline line of its trace stands: the server-side
+// cancellation happened inside the source's call number c + 1 (c = CancelSeen payloads produced before it).
+// SSE writes and flushes an event before it asks the source again, so the line follows `next c` (`pre` when
+// c = 0) directly - pings on either side of it are the model's business. multipart: a payload is on the wire
+// only with the flush of its part, so the line stands before the part that carries the first payload id >= c
+// (after the last payload: before the last part; ids count from 0 = the initial payload); the parts before
+// it carry only payloads produced before the cancellation, and the model may flush them before or after it.
+// len(Toks) = before the End line (the token looked for is not there: the trace is rejected on its merits).
+func deadlinePos(s *Scenario) int {
+	c := s.CancelSeen
+	if s.Kind == "sse" {
+		for i, t := range s.Toks {
+			if (c == 0 && t.K == "pre") || (c > 0 && t.K == "next" && t.ID == c) {
+				return i + 1
+			}
+		}
+		return len(s.Toks)
+	}
+	target := c
+	if target > s.N {
+		target = s.N
+	}
+	start := 0
+	for i, t := range s.Toks {
+		if t.K == "hdr" && i > 1 {
+			start = i
+		}
+		if t.K == "init" || t.K == "incr" {
+			for _, id := range t.IDs {
+				if id >= target {
+					return start
+				}
+			}
+		}
+	}
+	return len(s.Toks)
 }
 
 var reAccepted = regexp.MustCompile(`ACCEPTED:(\[[0-9,]*\])`)
@@ -60,6 +108,17 @@ type tlcStats struct {
 // one TLC process with one worker) and returns the set of streams whose trace
 // the specification with the given constants admits.
 func accepted(scs []*Scenario, lock, stop, atomic bool, tag string, st *tlcStats) map[*Scenario]bool {
+	return acceptedX(scs, lock, stop, atomic, tag, st, nil)
+}
+
+// kaCloseOnDone selects the deviating design of round 4 in a trace configuration: keepAlive's ctx.Done
+// branch marks the connection closed.
+func kaCloseOnDone(cfg string) string {
+	return strings.Replace(cfg, "\n  KACloseOnDone = FALSE", "\n  KACloseOnDone = TRUE", 1)
+}
+
+// acceptedX: accepted with a further edit of the configuration (a deviating design switch).
+func acceptedX(scs []*Scenario, lock, stop, atomic bool, tag string, st *tlcStats, more func(string) string) map[*Scenario]bool {
 	out := map[*Scenario]bool{}
 	if len(scs) == 0 {
 		return out
@@ -114,8 +173,14 @@ func accepted(scs []*Scenario, lock, stop, atomic bool, tag string, st *tlcStats
 				}
 			}
 			res, err := vlib.RunTLC(vlib.TLCOpts{Module: "StreamTrace", Config: traceCfg(lock, stop, atomic), Workers: 1, DFS: true,
-				Data:    map[string][]byte{"trace.ndjson": buf.Bytes()},
-				CfgEdit: constEdit(lock, stop, atomic, true),
+				Data: map[string][]byte{"trace.ndjson": buf.Bytes()},
+				CfgEdit: func(cfg string) string {
+					cfg = constEdit(lock, stop, atomic, true)(cfg)
+					if more != nil {
+						cfg = more(cfg)
+					}
+					return cfg
+				},
 				Scratch: vlib.Work("C12", fmt.Sprintf("tv-%s-%d", tag, ci)), Timeout: 25 * time.Minute})
 			if err != nil {
 				vlib.Infra("tlc: %v", err)
